@@ -20,6 +20,7 @@ Inductive call_shape (q : Z) : list action -> Prop :=
 
 Section Generic.
   Variable effw : frame -> wres -> wres.
+  Variable pf : bool.
 
   Lemma write_once_terminal f st :
     exists a, write_once effw f st = [a] /\ terminal (f_seq f) a.
@@ -44,34 +45,38 @@ Section Generic.
         as (a & -> & Ha). constructor; exact Ha. }
     destruct (st_ok stat).
     2:{ destruct (reply_path_terminal f stat) as (a & -> & Ha). constructor; exact Ha. }
-    destruct (hook (f_verdict f SPostReadCallBody)) as [s|s|c].
+    destruct (hook (f_verdict f SPostReadCallBody)) as [|s|c].
     - destruct h as [k|].
       + destruct (f_handler f) as [hs|c].
-        * destruct (reply_path_terminal f (if st_ok hs then s else hs)) as (a & -> & Ha).
+        * destruct (reply_path_terminal f (if st_ok hs then None else hs)) as (a & -> & Ha).
           constructor; exact Ha.
         * destruct (write_once_terminal f (Some (st_internal c))) as (a & -> & Ha).
           constructor; exact Ha.
-      + destruct (reply_path_terminal f s) as (a & -> & Ha). constructor; exact Ha.
+      + destruct (reply_path_terminal f None) as (a & -> & Ha). constructor; exact Ha.
     - destruct (reply_path_terminal f (Some s)) as (a & -> & Ha). constructor; exact Ha.
     - destruct (write_once_terminal f (Some (st_internal c))) as (a & -> & Ha).
       constructor; exact Ha.
   Qed.
 
-  Lemma after_read_call_shape f e stat h pc :
-    classify_type (f_type f) = TCall ->
-    call_shape (f_seq f) (after_read effw f e stat h pc).
+  Lemma handle_shape f stat h pc :
+    classify_type (f_type f) = TCall -> call_shape (f_seq f) (handle effw f stat h pc).
   Proof.
-    intros Ht. unfold after_read.
-    destruct (_ || _). { constructor; constructor. }
-    destruct (f_spawn_failed f). { rewrite Ht. constructor; constructor. }
-    unfold handle.
-    destruct (is_not_allowed _).
-    { constructor; constructor. }
+    intros Ht. unfold handle. destruct (is_not_allowed _). { constructor; constructor. }
     rewrite Ht. apply handle_call_shape.
   Qed.
 
+  Lemma after_read_call_shape f e stat h pc :
+    classify_type (f_type f) = TCall ->
+    call_shape (f_seq f) (after_read effw pf f e stat h pc).
+  Proof.
+    intros Ht. unfold after_read.
+    destruct (_ || _). { constructor; constructor. }
+    destruct (f_spawn_failed f); [|apply handle_shape; exact Ht].
+    destruct pf; rewrite Ht; [apply handle_shape; exact Ht | constructor; constructor].
+  Qed.
+
   Lemma dispatch_call_shape f :
-    classify_type (f_type f) = TCall -> call_shape (f_seq f) (dispatch effw f).
+    classify_type (f_type f) = TCall -> call_shape (f_seq f) (dispatch effw pf f).
   Proof.
     intros Ht. unfold dispatch.
     destruct (f_verdict f SPreReadHeader); try (constructor; constructor).
@@ -87,36 +92,44 @@ Section Generic.
   Proof.
     unfold handle_push. destruct h as [k|]; [|intros []].
     destruct (st_ok stat); [|intros []].
-    destruct (f_verdict f SPostReadPushBody); cbn; intros H; try contradiction.
+    destruct (hook (f_verdict f SPostReadPushBody)); cbn; intros H; try contradiction.
     destruct H as [<-|[]]. eauto.
   Qed.
 
   Lemma handle_push_length f stat h : (length (handle_push f stat h) <= 1)%nat.
   Proof.
     unfold handle_push. destruct h; [|cbn; lia]. destruct (st_ok stat); [|cbn; lia].
-    destruct (f_verdict f SPostReadPushBody); cbn; lia.
+    destruct (hook (f_verdict f SPostReadPushBody)); cbn; lia.
   Qed.
 
-  Lemma after_read_noncall f e stat h pc a :
+  Lemma handle_noncall f stat h pc a :
     classify_type (f_type f) <> TCall ->
-    In a (after_read effw f e stat h pc) -> a = Disconnect \/ exists k, a = Invoke k.
+    In a (handle effw f stat h pc) -> a = Disconnect \/ exists k, a = Invoke k.
   Proof.
-    intros Ht. unfold after_read.
-    destruct (_ || _). { intros [<-|[]]. left; reflexivity. }
-    destruct (f_spawn_failed f).
-    { destruct (classify_type (f_type f)); try congruence; intros []. }
-    unfold handle.
-    destruct (is_not_allowed _).
-    { intros [<-|[]]. left; reflexivity. }
+    intros Ht. unfold handle.
+    destruct (is_not_allowed _). { intros [<-|[]]. left; reflexivity. }
     destruct (classify_type (f_type f)); try congruence.
     - intros [].
     - intros H. right. eapply handle_push_no_reply; exact H.
     - intros [<-|[]]. left; reflexivity.
   Qed.
 
+  Lemma after_read_noncall f e stat h pc a :
+    classify_type (f_type f) <> TCall ->
+    In a (after_read effw pf f e stat h pc) -> a = Disconnect \/ exists k, a = Invoke k.
+  Proof.
+    intros Ht. unfold after_read.
+    destruct (_ || _). { intros [<-|[]]. left; reflexivity. }
+    destruct (f_spawn_failed f); [|apply handle_noncall; exact Ht].
+    destruct pf.
+    - destruct (classify_type (f_type f)) eqn:E; try congruence;
+        try (apply handle_noncall; congruence). intros [].
+    - destruct (classify_type (f_type f)); try congruence; intros [].
+  Qed.
+
   Lemma dispatch_noncall f a :
     classify_type (f_type f) <> TCall ->
-    In a (dispatch effw f) -> a = Disconnect \/ exists k, a = Invoke k.
+    In a (dispatch effw pf f) -> a = Disconnect \/ exists k, a = Invoke k.
   Proof.
     intros Ht. unfold dispatch.
     destruct (f_verdict f SPreReadHeader); try (intros [<-|[]]; left; reflexivity).
@@ -126,18 +139,25 @@ Section Generic.
       apply after_read_noncall; exact Ht.
   Qed.
 
-  Lemma after_read_push_invocations f e stat h pc :
-    classify_type (f_type f) = TPush ->
-    (count is_invoke (after_read effw f e stat h pc) <= 1)%nat.
+  Lemma handle_invocations_noncall f stat h pc :
+    classify_type (f_type f) <> TCall -> (count is_invoke (handle effw f stat h pc) <= 1)%nat.
+  Proof.
+    intros Ht. unfold handle. destruct (is_not_allowed _). { cbn; lia. }
+    destruct (classify_type (f_type f)); try congruence; try (cbn; lia).
+    unfold count. etransitivity; [apply filter_len_le | apply handle_push_length].
+  Qed.
+
+  Lemma after_read_noncall_invocations f e stat h pc :
+    classify_type (f_type f) <> TCall ->
+    (count is_invoke (after_read effw pf f e stat h pc) <= 1)%nat.
   Proof.
     intros Ht. unfold after_read.
     destruct (_ || _). { cbn; lia. }
-    destruct (f_spawn_failed f). { rewrite Ht; cbn; lia. }
-    unfold handle.
-    destruct (is_not_allowed _).
-    { cbn; lia. }
-    rewrite Ht. unfold count.
-    etransitivity; [apply filter_len_le | apply handle_push_length].
+    destruct (f_spawn_failed f); [|apply handle_invocations_noncall; exact Ht].
+    destruct pf.
+    - destruct (classify_type (f_type f)) eqn:E; try congruence;
+        try (apply handle_invocations_noncall; congruence). cbn; lia.
+    - destruct (classify_type (f_type f)); try congruence; cbn; lia.
   Qed.
 
   (* ---- extensionality in the write filter ---- *)
@@ -172,21 +192,30 @@ Section Generic.
     - apply write_once_ext; exact H.
   Qed.
 
-  Lemma dispatch_ext f : (forall w, effw f w = effw' f w) ->
-    dispatch effw f = dispatch effw' f.
+  Lemma handle_ext f stat h pc : (forall w, effw f w = effw' f w) ->
+    handle effw f stat h pc = handle effw' f stat h pc.
   Proof.
-    intros H. unfold dispatch, after_read, handle.
+    intros H. unfold handle. destruct (is_not_allowed _); [reflexivity|].
+    destruct (classify_type (f_type f)); try reflexivity. apply handle_call_ext; exact H.
+  Qed.
+
+  Lemma after_read_ext f e stat h pc : (forall w, effw f w = effw' f w) ->
+    after_read effw pf f e stat h pc = after_read effw' pf f e stat h pc.
+  Proof.
+    intros H. unfold after_read. destruct (_ || _); [reflexivity|].
+    destruct (f_spawn_failed f); [|apply handle_ext; exact H].
+    destruct pf; [|reflexivity].
+    destruct (classify_type (f_type f)); try reflexivity; apply handle_ext; exact H.
+  Qed.
+
+  Lemma dispatch_ext f : (forall w, effw f w = effw' f w) ->
+    dispatch effw pf f = dispatch effw' pf f.
+  Proof.
+    intros H. unfold dispatch.
     destruct (f_verdict f SPreReadHeader); try reflexivity.
     destruct (f_read f).
-    - destruct (_ || _); [reflexivity|]. destruct (f_spawn_failed f); [reflexivity|].
-      destruct (is_not_allowed _);
-        [reflexivity|].
-      destruct (classify_type (f_type f)); try reflexivity. apply handle_call_ext; exact H.
-    - destruct (binding f); [reflexivity|].
-      destruct (_ || _); [reflexivity|]. destruct (f_spawn_failed f); [reflexivity|].
-      destruct (is_not_allowed _);
-        [reflexivity|].
-      destruct (classify_type (f_type f)); try reflexivity. apply handle_call_ext; exact H.
+    - apply after_read_ext; exact H.
+    - destruct (binding f); [reflexivity|]. apply after_read_ext; exact H.
   Qed.
 End Generic.
 
@@ -282,145 +311,162 @@ Proof.
   - apply write_once_no_drop; [reflexivity | exact H1].
 Qed.
 
-Lemma dispatch_no_drop f :
-  f_spawn_failed f = false -> error_frames_writable f -> ~ In Drop (dispatch_now f).
+Lemma handle_no_drop f stat h pc :
+  error_frames_writable f -> ~ In Drop (handle eff_write f stat h pc).
 Proof.
-  intros Hs Hw. unfold dispatch_now, dispatch, after_read, handle. rewrite Hs.
+  intros Hw. unfold handle. destruct (is_not_allowed _); [cbn; intros [H|[]]; discriminate|].
+  destruct (classify_type (f_type f)); try (cbn; intros [H|[]]; discriminate).
+  - apply handle_call_no_drop; exact Hw.
+  - intros [].
+  - intros H. apply (handle_push_no_reply f _ _ _) in H. destruct H; discriminate.
+Qed.
+
+Lemma after_read_no_drop pf f e stat h pc :
+  pf = true \/ f_spawn_failed f = false ->
+  error_frames_writable f -> ~ In Drop (after_read eff_write pf f e stat h pc).
+Proof.
+  intros Hs Hw. unfold after_read.
+  destruct (_ || _); [cbn; intros [H|[]]; discriminate|].
+  destruct (f_spawn_failed f); [|apply handle_no_drop; exact Hw].
+  destruct Hs as [->|Hs]; [|discriminate].
+  destruct (classify_type (f_type f)); try (apply handle_no_drop; exact Hw). intros [].
+Qed.
+
+Lemma dispatch_no_drop pf f :
+  pf = true \/ f_spawn_failed f = false ->
+  error_frames_writable f -> ~ In Drop (dispatch eff_write pf f).
+Proof.
+  intros Hs Hw. unfold dispatch.
   destruct (f_verdict f SPreReadHeader); try (cbn; intros [H|[]]; discriminate).
   destruct (f_read f).
-  - destruct (_ || _); [cbn; intros [H|[]]; discriminate|].
-    destruct (is_not_allowed _);
-      [cbn; intros [H|[]]; discriminate|].
-    destruct (classify_type (f_type f)); try (cbn; intros [H|[]]; discriminate).
-    + apply handle_call_no_drop; exact Hw.
-    + intros [].
-    + intros H. apply (handle_push_no_reply f _ _ _) in H. destruct H; discriminate.
+  - apply after_read_no_drop; assumption.
   - destruct (binding f); [cbn; intros [H|[]]; discriminate|].
-    destruct (_ || _); [cbn; intros [H|[]]; discriminate|].
-    destruct (is_not_allowed _);
-      [cbn; intros [H|[]]; discriminate|].
-    destruct (classify_type (f_type f)); try (cbn; intros [H|[]]; discriminate).
-    + apply handle_call_no_drop; exact Hw.
-    + intros [].
-    + intros H. apply (handle_push_no_reply f _ _ _) in H. destruct H; discriminate.
+    apply after_read_no_drop; assumption.
 Qed.
 
 (* ---- main lemmas in the form used by Properties/C03.v ---- *)
 Definition is_call (f : frame) : Prop := classify_type (f_type f) = TCall.
 
-Lemma call_at_most_one_invocation_lemma effw f :
-  is_call f -> (count is_invoke (dispatch effw f) <= 1)%nat.
+Lemma call_at_most_one_invocation_lemma effw pf f :
+  is_call f -> (count is_invoke (dispatch effw pf f) <= 1)%nat.
 Proof. intros H. eapply shape_invocations, dispatch_call_shape, H. Qed.
 
-Lemma any_frame_at_most_one_invocation_lemma effw f :
-  (count is_invoke (dispatch effw f) <= 1)%nat.
+Lemma noncall_at_most_one_invocation effw pf f :
+  classify_type (f_type f) <> TCall -> (count is_invoke (dispatch effw pf f) <= 1)%nat.
 Proof.
-  destruct (classify_type (f_type f)) eqn:Ht.
-  - apply call_at_most_one_invocation_lemma. exact Ht.
-  - (* reply *) assert (Hn : classify_type (f_type f) <> TCall) by congruence.
-    unfold dispatch.
-    destruct (f_verdict f SPreReadHeader); try (cbn; lia).
-    destruct (f_read f); [|destruct (binding f); [cbn; lia|]];
-      unfold after_read; destruct (_ || _); try (cbn; lia);
-      destruct (f_spawn_failed f); rewrite ?Ht; try (cbn; lia);
-      unfold handle;
-      destruct (is_not_allowed _);
-      rewrite ?Ht; cbn; lia.
-  - unfold dispatch.
-    destruct (f_verdict f SPreReadHeader); try (cbn; lia).
-    destruct (f_read f); [|destruct (binding f); [cbn; lia|]];
-      apply after_read_push_invocations; exact Ht.
-  - unfold dispatch.
-    destruct (f_verdict f SPreReadHeader); try (cbn; lia).
-    destruct (f_read f); [|destruct (binding f); [cbn; lia|]];
-      unfold after_read; destruct (_ || _); try (cbn; lia);
-      destruct (f_spawn_failed f); rewrite ?Ht; try (cbn; lia);
-      unfold handle;
-      destruct (is_not_allowed _);
-      rewrite ?Ht; cbn; lia.
+  intros Hn. unfold dispatch.
+  destruct (f_verdict f SPreReadHeader); try (cbn; lia).
+  destruct (f_read f).
+  - apply after_read_noncall_invocations; exact Hn.
+  - destruct (binding f); [cbn; lia|]. apply after_read_noncall_invocations; exact Hn.
 Qed.
 
-Lemma call_never_answered_twice_lemma effw f :
-  is_call f ->
-  (count is_reply (dispatch effw f) <= 1)%nat /\
-  (forall s st, In (Reply s st) (dispatch effw f) -> s = f_seq f).
+Lemma any_frame_at_most_one_invocation_lemma effw pf f :
+  (count is_invoke (dispatch effw pf f) <= 1)%nat.
 Proof.
-  intros H. pose proof (dispatch_call_shape effw f H) as Hs. split.
+  destruct (classify_type (f_type f)) eqn:Ht.
+  - apply call_at_most_one_invocation_lemma; exact Ht.
+  - apply noncall_at_most_one_invocation; congruence.
+  - apply noncall_at_most_one_invocation; congruence.
+  - apply noncall_at_most_one_invocation; congruence.
+Qed.
+
+Lemma call_never_answered_twice_lemma effw pf f :
+  is_call f ->
+  (count is_reply (dispatch effw pf f) <= 1)%nat /\
+  (forall s st, In (Reply s st) (dispatch effw pf f) -> s = f_seq f).
+Proof.
+  intros H. pose proof (dispatch_call_shape effw pf f H) as Hs. split.
   - eapply shape_replies; exact Hs.
   - intros s st. eapply shape_reply_seq; exact Hs.
 Qed.
 
-Lemma call_trichotomy_lemma effw f :
+Lemma call_trichotomy_lemma effw pf f :
   is_call f ->
-  answered_once (f_seq f) (dispatch effw f) \/ disconnected_instead (dispatch effw f) \/
-  dropped (dispatch effw f).
+  answered_once (f_seq f) (dispatch effw pf f) \/ disconnected_instead (dispatch effw pf f) \/
+  dropped (dispatch effw pf f).
 Proof. intros H. eapply shape_trichotomy, dispatch_call_shape, H. Qed.
 
 Lemma call_exactly_one_reply_or_disconnect_lemma f :
-  is_call f -> f_spawn_failed f = false -> error_frames_writable f ->
+  is_call f -> error_frames_writable f ->
   answered_once (f_seq f) (dispatch_now f) \/ disconnected_instead (dispatch_now f).
 Proof.
-  intros Hc Hs Hw.
-  pose proof (dispatch_call_shape eff_write f Hc) as Hsh.
+  intros Hc Hw.
+  pose proof (dispatch_call_shape eff_write true f Hc) as Hsh.
   destruct (shape_trichotomy _ _ Hsh) as [H|[H|H]]; auto.
-  exfalso. apply (dropped_iff_in _ _ Hsh) in H. revert H. apply dispatch_no_drop; assumption.
+  exfalso. apply (dropped_iff_in _ _ Hsh) in H. revert H.
+  apply dispatch_no_drop; [left; reflexivity | assumption].
 Qed.
 
-(* before fix bd93e2a the same holds only while the context is alive *)
-Lemma prefix_agrees_lemma f :
-  f_ctx_expired f = false -> dispatch_prefix f = dispatch_now f.
+(* the tree before the pool fix needs a goroutine *)
+Lemma call_exactly_one_reply_or_disconnect_pre_pool_lemma f :
+  is_call f -> f_spawn_failed f = false -> error_frames_writable f ->
+  answered_once (f_seq f) (dispatch eff_write false f) \/
+  disconnected_instead (dispatch eff_write false f).
 Proof.
-  intros H. unfold dispatch_prefix, dispatch_now. apply dispatch_ext.
+  intros Hc Hs Hw.
+  pose proof (dispatch_call_shape eff_write false f Hc) as Hsh.
+  destruct (shape_trichotomy _ _ Hsh) as [H|[H|H]]; auto.
+  exfalso. apply (dropped_iff_in _ _ Hsh) in H. revert H.
+  apply dispatch_no_drop; [right; exact Hs | assumption].
+Qed.
+
+Lemma spawn_ok_pool_irrelevant effw f :
+  f_spawn_failed f = false -> dispatch effw false f = dispatch effw true f.
+Proof.
+  intros Hs. unfold dispatch, after_read. rewrite Hs. reflexivity.
+Qed.
+
+(* the pinned tree behaves like the current one while the context is alive and a
+   goroutine is available *)
+Lemma prefix_agrees_lemma f :
+  f_ctx_expired f = false -> f_spawn_failed f = false -> dispatch_prefix f = dispatch_now f.
+Proof.
+  intros H Hs. unfold dispatch_prefix, dispatch_now.
+  rewrite (spawn_ok_pool_irrelevant _ f Hs). apply dispatch_ext.
   intros w. unfold eff_write_prefix, eff_write. rewrite H. destruct w; reflexivity.
 Qed.
 
-Lemma push_never_replied_lemma effw f :
-  classify_type (f_type f) = TPush ->
-  count is_reply (dispatch effw f) = 0%nat /\ count is_drop (dispatch effw f) = 0%nat /\
-  (count is_invoke (dispatch effw f) <= 1)%nat.
-Proof.
-  intros Ht. assert (Hn : classify_type (f_type f) <> TCall) by congruence.
-  pose proof (dispatch_noncall effw f) as Hd.
-  assert (Hall : forall p, (forall k, p (Invoke k) = false) -> p Disconnect = false ->
-                           count p (dispatch effw f) = 0%nat).
-  { intros p Hi Hdc. unfold count.
-    induction (dispatch effw f) as [|a l IH]; [reflexivity|]. cbn.
-    destruct (Hd a Hn (or_introl eq_refl)) as [->|[k ->]].
-    - rewrite Hdc. apply IH. intros b Hb Hin. apply Hd; [exact Hb | right; exact Hin].
-    - rewrite Hi. apply IH. intros b Hb Hin. apply Hd; [exact Hb | right; exact Hin]. }
-  split; [apply Hall; reflexivity|]. split; [apply Hall; reflexivity|].
-  apply any_frame_at_most_one_invocation_lemma.
-Qed.
-
-Lemma noncall_never_replied_lemma effw f :
+Lemma noncall_never_replied_lemma effw pf f :
   classify_type (f_type f) <> TCall ->
-  count is_reply (dispatch effw f) = 0%nat /\ count is_drop (dispatch effw f) = 0%nat.
+  count is_reply (dispatch effw pf f) = 0%nat /\ count is_drop (dispatch effw pf f) = 0%nat.
 Proof.
-  intros Hn. pose proof (dispatch_noncall effw f) as Hd.
+  intros Hn. pose proof (dispatch_noncall effw pf f) as Hd.
   assert (Hall : forall p, (forall k, p (Invoke k) = false) -> p Disconnect = false ->
-                           count p (dispatch effw f) = 0%nat).
+                           count p (dispatch effw pf f) = 0%nat).
   { intros p Hi Hdc. unfold count.
-    induction (dispatch effw f) as [|a l IH]; [reflexivity|]. cbn.
+    induction (dispatch effw pf f) as [|a l IH]; [reflexivity|]. cbn.
     destruct (Hd a Hn (or_introl eq_refl)) as [->|[k ->]].
     - rewrite Hdc. apply IH. intros b Hb Hin. apply Hd; [exact Hb | right; exact Hin].
     - rewrite Hi. apply IH. intros b Hb Hin. apply Hd; [exact Hb | right; exact Hin]. }
   split; apply Hall; reflexivity.
 Qed.
 
-Lemma unsupported_type_disconnects_lemma effw f :
-  classify_type (f_type f) = TOther -> f_spawn_failed f = false ->
-  dispatch effw f = [Disconnect].
+Lemma push_never_replied_lemma effw pf f :
+  classify_type (f_type f) = TPush ->
+  count is_reply (dispatch effw pf f) = 0%nat /\ count is_drop (dispatch effw pf f) = 0%nat /\
+  (count is_invoke (dispatch effw pf f) <= 1)%nat.
 Proof.
-  intros Ht Hs. unfold dispatch.
+  intros Ht. assert (Hn : classify_type (f_type f) <> TCall) by congruence.
+  destruct (noncall_never_replied_lemma effw pf f Hn) as [H1 H2].
+  repeat split; auto. apply any_frame_at_most_one_invocation_lemma.
+Qed.
+
+Lemma unsupported_type_disconnects_lemma effw pf f :
+  classify_type (f_type f) = TOther -> pf = true \/ f_spawn_failed f = false ->
+  dispatch effw pf f = [Disconnect].
+Proof.
+  intros Ht Hs.
+  assert (Hh : forall stat h pc, handle effw f stat h pc = [Disconnect]).
+  { intros. unfold handle. destruct (is_not_allowed _); [reflexivity|]. rewrite Ht. reflexivity. }
+  assert (Ha : forall e stat h pc, after_read effw pf f e stat h pc = [Disconnect]).
+  { intros. unfold after_read. destruct (_ || _); [reflexivity|].
+    destruct (f_spawn_failed f); [|apply Hh].
+    destruct Hs as [->|Hs]; [|discriminate]. rewrite Ht. apply Hh. }
+  unfold dispatch.
   destruct (f_verdict f SPreReadHeader); try reflexivity.
-  destruct (f_read f).
-  - unfold after_read. destruct (_ || _); [reflexivity|]. rewrite Hs. unfold handle.
-    destruct (is_not_allowed _);
-      [reflexivity|]. rewrite Ht. reflexivity.
-  - unfold binding. rewrite Ht. unfold after_read.
-    destruct (_ || _); [reflexivity|]. rewrite Hs. unfold handle.
-    destruct (is_not_allowed _);
-      [reflexivity|]. rewrite Ht. reflexivity.
+  destruct (f_read f); [apply Ha|].
+  unfold binding. rewrite Ht. apply Ha.
 Qed.
 
 Lemma classify_type_total b :
@@ -434,11 +480,6 @@ Proof. destruct v as [|t|c]; cbn; try discriminate. destruct (st_code t =? 0) eq
 
 Lemma hook_veto_src v s : hook v = HookVeto s -> v = VStat s.
 Proof. destruct v as [|t|c]; cbn; try discriminate. destruct (st_code t =? 0); intros H; inversion H; reflexivity. Qed.
-
-Lemma hook_ok_ok v s : hook v = HookOk s -> st_ok s = true.
-Proof. destruct v as [|t|c]; cbn; try discriminate.
-  - intros H; inversion H; reflexivity.
-  - destruct (st_code t =? 0) eqn:E; intros H; inversion H; subst. cbn. exact E. Qed.
 
 (* the statuses a reply of [reply_path f st] can carry *)
 Lemma write_once_status f st q st' :
@@ -504,14 +545,14 @@ Proof.
   destruct (negb pc).
   { apply Hwo. destruct (st_ok stat) eqn:E; [right; constructor | exact He]. }
   destruct (st_ok stat) eqn:Es; [|apply Hrp; exact He].
-  destruct (hook (f_verdict f SPostReadCallBody)) as [s|s|c] eqn:Eh.
+  destruct (hook (f_verdict f SPostReadCallBody)) as [|s|c] eqn:Eh.
   - destruct h as [k|].
     + destruct (f_handler f) as [hs|c] eqn:Ehd; cbn; intros [H|H]; try discriminate; revert H.
       * apply Hrp. destruct (st_ok hs) eqn:E.
-        -- left. eapply hook_ok_ok; exact Eh.
+        -- left. reflexivity.
         -- right. destruct hs as [s'|]; [|discriminate]. apply RS_handler. exact Ehd.
       * apply Hwo. right. constructor.
-    + apply Hrp. left. eapply hook_ok_ok; exact Eh.
+    + apply Hrp. left. reflexivity.
   - apply Hrp. right. apply (RS_plugin f SPostReadCallBody); [cbn; auto | apply hook_veto_src; exact Eh].
   - apply Hwo. right. constructor.
 Qed.
@@ -520,27 +561,36 @@ Lemma bind_call_entry f stat h body :
   bind_with f SPostReadCallHeader SPreReadCallBody = Bound stat h body -> entry_status f stat.
 Proof.
   unfold bind_with.
-  destruct (hook (f_verdict f SPostReadCallHeader)) as [s|s|c] eqn:E1; try discriminate.
+  destruct (hook (f_verdict f SPostReadCallHeader)) as [|s|c] eqn:E1; try discriminate.
   - destruct (f_sm_empty f). { intros H; inversion H; subst. right. constructor. }
     destruct (lookup (f_route f)). 2:{ intros H; inversion H; subst. right. constructor. }
-    destruct (hook (f_verdict f SPreReadCallBody)) as [s2|s2|c2] eqn:E2; try discriminate;
+    destruct (hook (f_verdict f SPreReadCallBody)) as [|s2|c2] eqn:E2; try discriminate;
       intros H; inversion H; subst.
-    + left. eapply hook_ok_ok; exact E2.
+    + left. reflexivity.
     + right. apply (RS_plugin f SPreReadCallBody); [cbn; auto | apply hook_veto_src; exact E2].
   - intros H; inversion H; subst. right.
     apply (RS_plugin f SPostReadCallHeader); [cbn; auto | apply hook_veto_src; exact E1].
 Qed.
 
+Lemma handle_source f stat h pc q st' :
+  is_call f -> entry_status f stat ->
+  In (Reply q st') (handle eff_write f stat h pc) -> reply_source f st'.
+Proof.
+  intros Hc He. unfold handle. destruct (is_not_allowed _); [intros [H|[]]; discriminate|].
+  rewrite Hc. apply handle_call_source. exact He.
+Qed.
+
 Lemma after_read_source f e stat h pc q st' :
   is_call f -> entry_status f stat ->
-  In (Reply q st') (after_read eff_write f e stat h pc) -> reply_source f st'.
+  In (Reply q st') (after_read eff_write true f e stat h pc) -> reply_source f st'.
 Proof.
   intros Hc He. unfold after_read.
   destruct (_ || _); [intros [H|[]]; discriminate|].
-  destruct (f_spawn_failed f). { rewrite Hc. intros [H|[]]; discriminate. }
-  unfold handle. destruct (is_not_allowed _); [intros [H|[]]; discriminate|].
-  rewrite Hc. apply handle_call_source.
-  destruct e; [right; constructor | exact He].
+  assert (He' : entry_status f (match e with Some _ => Some (st_bad_message CLib) | None => stat end)).
+  { destruct e; [right; constructor | exact He]. }
+  destruct (f_spawn_failed f); [|apply handle_source; assumption].
+  rewrite Hc. apply handle_source; [exact Hc|].
+  destruct (st_ok _) eqn:E; [right; constructor | exact He'].
 Qed.
 
 Lemma reply_status_source_lemma f q st :
@@ -571,7 +621,7 @@ Record normal_env (f : frame) : Prop := {
   ne_werr : f_w_err1 f = WOk
 }.
 
-Definition passes (v : verdict) : Prop := exists s, hook v = HookOk s.
+Definition passes (v : verdict) : Prop := hook v = HookOk.
 
 Lemma reply_path_normal f st :
   f_w_ok f = WOk -> f_w_err1 f = WOk -> (forall c, f_verdict f SPreWriteReply <> VPanic c) ->
@@ -606,10 +656,10 @@ Proof.
 Qed.
 
 (* a veto whose code is 405 is indistinguishable from an unsupported type *)
-Lemma rule_veto_405_lemma effw f e s :
+Lemma rule_veto_405_lemma effw pf f e s :
   base_env f -> f_read f = RBody e ->
   f_verdict f SPostReadCallHeader = VStat s -> st_code s = 405 ->
-  dispatch effw f = [Disconnect].
+  dispatch effw pf f = [Disconnect].
 Proof.
   intros B Hr Hv H5. base_start B. rewrite Hr, Hv. cbn [hook]. rewrite H5. cbn [Z.eqb orb negb].
   unfold is_not_allowed, code_mtype_not_allowed. rewrite H5. reflexivity.
@@ -620,7 +670,7 @@ Lemma rule_invalid_method_lemma f e :
   f_sm_empty f = true ->
   dispatch_now f = [Reply (f_seq f) (Some st_invalid_method)].
 Proof.
-  intros N Hr [s Hp] Hm. norm_start N. rewrite Hr, Hp, Hm. cbn [orb negb].
+  intros N Hr Hp Hm. norm_start N. rewrite Hr, Hp, Hm. cbn [orb negb].
   cbn. unfold handle_call. cbn [negb st_ok st_invalid_method st_bad_message st_code Z.eqb].
   rewrite reply_path_normal by assumption. reflexivity.
 Qed.
@@ -630,7 +680,7 @@ Lemma rule_not_found_lemma f e :
   f_sm_empty f = false -> f_route f = RNone ->
   dispatch_now f = [Reply (f_seq f) (Some st_not_found)].
 Proof.
-  intros N Hr [s Hp] Hm Hrt. norm_start N. rewrite Hr, Hp, Hm, Hrt. cbn [lookup orb negb].
+  intros N Hr Hp Hm Hrt. norm_start N. rewrite Hr, Hp, Hm, Hrt. cbn [lookup orb negb].
   cbn. unfold handle_call. cbn [negb st_ok st_not_found st_code Z.eqb].
   rewrite reply_path_normal by assumption. reflexivity.
 Qed.
@@ -641,7 +691,7 @@ Lemma rule_veto_body_lemma f e s :
   f_verdict f SPreReadCallBody = VStat s -> st_code s <> 0 -> st_code s <> 405 ->
   dispatch_now f = [Reply (f_seq f) (Some s)].
 Proof.
-  intros N Hr [s1 Hp] Hm Hrt Hv H0 H5. norm_start N. rewrite Hr, Hp, Hm, Hv. cbn [hook].
+  intros N Hr Hp Hm Hrt Hv H0 H5. norm_start N. rewrite Hr, Hp, Hm, Hv. cbn [hook].
   apply Z.eqb_neq in H0. apply Z.eqb_neq in H5. rewrite H0.
   destruct (f_route f); try congruence; cbn [lookup]; cbn [orb negb];
     unfold is_not_allowed, code_mtype_not_allowed; rewrite H5;
@@ -655,20 +705,20 @@ Lemma rule_bad_body_lemma f :
   f_sm_empty f = false -> f_route f = RKnown -> passes (f_verdict f SPreReadCallBody) ->
   dispatch_now f = [Reply (f_seq f) (Some (st_bad_message CLib))].
 Proof.
-  intros N Hr [s1 Hp] Hm Hrt [s2 Hp2]. norm_start N. rewrite Hr, Hp, Hm, Hrt, Hp2.
+  intros N Hr Hp Hm Hrt Hp2. norm_start N. rewrite Hr, Hp, Hm, Hrt, Hp2.
   cbn [lookup]. cbn [orb negb]. cbn.
   unfold handle_call. cbn [negb st_ok st_bad_message st_code Z.eqb].
   rewrite reply_path_normal by assumption. reflexivity.
 Qed.
 
 (* same, codec id still 0: the read loop ends *)
-Lemma rule_bad_body_no_codec_lemma effw f :
+Lemma rule_bad_body_no_codec_lemma effw pf f :
   f_verdict f SPreReadHeader = VNil -> f_read f = RBody (Some false) ->
   passes (f_verdict f SPostReadCallHeader) ->
   f_sm_empty f = false -> f_route f = RKnown -> passes (f_verdict f SPreReadCallBody) ->
-  is_call f -> dispatch effw f = [Disconnect].
+  is_call f -> dispatch effw pf f = [Disconnect].
 Proof.
-  intros Hpre Hr [s1 Hp] Hm Hrt [s2 Hp2] Hc.
+  intros Hpre Hr Hp Hm Hrt Hp2 Hc.
   unfold dispatch, binding, bind_with, after_read. rewrite Hpre, Hr, Hc, Hp, Hm, Hrt, Hp2.
   reflexivity.
 Qed.
@@ -684,17 +734,12 @@ Record reaches_post_body (f : frame) (k : hkind) : Prop := {
 
 Lemma to_post_body f k :
   base_env f -> reaches_post_body f k ->
-  exists s2, st_ok s2 = true /\ dispatch_now f = handle_call eff_write f s2 (Some k) true.
+  dispatch_now f = handle_call eff_write f None (Some k) true.
 Proof.
-  intros B [Hr [s1 Hp] Hm Hl [s2 Hp2]]. base_start B. exists s2.
-  assert (Hok2 : st_ok s2 = true) by (eapply hook_ok_ok; exact Hp2).
-  assert (Hna : is_not_allowed s2 = false).
-  { unfold is_not_allowed. destruct s2 as [t|]; [|reflexivity]. cbn in Hok2.
-    apply Z.eqb_eq in Hok2. rewrite Hok2. reflexivity. }
-  split; [exact Hok2|].
+  intros B [Hr Hp Hm Hl Hp2]. base_start B.
   destruct Hr as [Hr|(e & Hr & ->)]; rewrite Hr, Hp, Hm, Hl, Hp2.
-  - destruct k; cbn [orb negb]; rewrite Hna; reflexivity.
-  - cbn [orb negb]. rewrite Hna. reflexivity.
+  - destruct k; reflexivity.
+  - reflexivity.
 Qed.
 
 Lemma rule_veto_post_body_lemma f k s :
@@ -702,65 +747,63 @@ Lemma rule_veto_post_body_lemma f k s :
   f_verdict f SPostReadCallBody = VStat s -> st_code s <> 0 ->
   dispatch_now f = [Reply (f_seq f) (Some s)].
 Proof.
-  intros [B Hwok Hwerr] R Hv H0.
-  destruct (to_post_body f k B R) as (s2 & Hok2 & ->).
+  intros [B Hwok Hwerr] R Hv H0. rewrite (to_post_body f k B R).
   destruct B. apply Z.eqb_neq in H0.
-  unfold handle_call. cbn [negb]. rewrite Hok2, Hv. cbn [hook]. rewrite H0.
+  unfold handle_call. cbn [negb st_ok]. rewrite Hv. cbn [hook]. rewrite H0.
   rewrite reply_path_normal by assumption. cbn [st_ok]. rewrite H0. reflexivity.
 Qed.
 
-Lemma to_handler f k s :
-  base_env f -> reaches_post_body f k -> hook (f_verdict f SPostReadCallBody) = HookOk s ->
+Lemma to_handler f k :
+  base_env f -> reaches_post_body f k -> passes (f_verdict f SPostReadCallBody) ->
   dispatch_now f =
   match f_handler f with
   | HPanic c => Invoke k :: write_once eff_write f (Some (st_internal c))
-  | HReturn hs => Invoke k :: reply_path eff_write f (if st_ok hs then s else hs)
+  | HReturn hs => Invoke k :: reply_path eff_write f (if st_ok hs then None else hs)
   end.
 Proof.
-  intros B R Hp3. destruct (to_post_body f k B R) as (s2 & Hok2 & ->).
-  unfold handle_call. cbn [negb]. rewrite Hok2, Hp3. reflexivity.
+  intros B R Hp3. rewrite (to_post_body f k B R).
+  unfold handle_call. cbn [negb st_ok]. rewrite Hp3. reflexivity.
 Qed.
 
-Lemma rule_handler_status_lemma f k s hs :
-  normal_env f -> reaches_post_body f k -> hook (f_verdict f SPostReadCallBody) = HookOk s ->
+Lemma rule_handler_status_lemma f k hs :
+  normal_env f -> reaches_post_body f k -> passes (f_verdict f SPostReadCallBody) ->
   f_handler f = HReturn (Some hs) -> st_code hs <> 0 ->
   dispatch_now f = [Invoke k; Reply (f_seq f) (Some hs)].
 Proof.
-  intros [B Hwok Hwerr] R Hp Hh H0. rewrite (to_handler f k s B R Hp), Hh.
+  intros [B Hwok Hwerr] R Hp Hh H0. rewrite (to_handler f k B R Hp), Hh.
   destruct B. apply Z.eqb_neq in H0. cbn [st_ok]. rewrite H0.
   rewrite reply_path_normal by assumption. cbn [st_ok]. rewrite H0. reflexivity.
 Qed.
 
-Lemma rule_handler_ok_lemma f k s hs :
-  normal_env f -> reaches_post_body f k -> hook (f_verdict f SPostReadCallBody) = HookOk s ->
+Lemma rule_handler_ok_lemma f k hs :
+  normal_env f -> reaches_post_body f k -> passes (f_verdict f SPostReadCallBody) ->
   f_handler f = HReturn hs -> st_ok hs = true ->
   dispatch_now f = [Invoke k; Reply (f_seq f) None].
 Proof.
-  intros [B Hwok Hwerr] R Hp Hh H0. rewrite (to_handler f k s B R Hp), Hh, H0.
-  assert (Hs : st_ok s = true) by (eapply hook_ok_ok; eassumption).
-  destruct B. rewrite reply_path_normal by assumption. rewrite Hs. reflexivity.
+  intros [B Hwok Hwerr] R Hp Hh H0. rewrite (to_handler f k B R Hp), Hh, H0.
+  destruct B. rewrite reply_path_normal by assumption. reflexivity.
 Qed.
 
-Lemma rule_handler_panic_lemma f k s c :
-  normal_env f -> reaches_post_body f k -> hook (f_verdict f SPostReadCallBody) = HookOk s ->
+Lemma rule_handler_panic_lemma f k c :
+  normal_env f -> reaches_post_body f k -> passes (f_verdict f SPostReadCallBody) ->
   f_handler f = HPanic c ->
   dispatch_now f = [Invoke k; Reply (f_seq f) (Some (st_internal c))].
 Proof.
-  intros [B Hwok Hwerr] R Hp Hh. rewrite (to_handler f k s B R Hp), Hh.
+  intros [B Hwok Hwerr] R Hp Hh. rewrite (to_handler f k B R Hp), Hh.
   rewrite write_once_normal by (assumption || reflexivity). reflexivity.
 Qed.
 
 (* the handler's OK reply cannot be written (its result cannot be marshalled ...):
    exactly one 500 instead *)
-Lemma rule_unwritable_result_lemma f k s hs :
-  base_env f -> reaches_post_body f k -> hook (f_verdict f SPostReadCallBody) = HookOk s ->
+Lemma rule_unwritable_result_lemma f k hs :
+  base_env f -> reaches_post_body f k -> passes (f_verdict f SPostReadCallBody) ->
   f_handler f = HReturn hs -> st_ok hs = true ->
   f_w_ok f = WRefused -> f_w_err2 f = WOk ->
   dispatch_now f = [Invoke k; Reply (f_seq f) (Some (st_internal CLib))].
 Proof.
-  intros B R Hp Hh H0 Hw1 Hw2. rewrite (to_handler f k s B R Hp), Hh, H0.
-  assert (Hs : st_ok s = true) by (eapply hook_ok_ok; eassumption).
-  destruct B as [_ _ _ _ Hpw]. unfold reply_path, first_write, eff_write. rewrite Hs, Hw1, Hw2.
+  intros B R Hp Hh H0 Hw1 Hw2. rewrite (to_handler f k B R Hp), Hh, H0.
+  destruct B as [_ _ _ _ Hpw]. unfold reply_path, first_write, eff_write. cbn [st_ok].
+  rewrite Hw1, Hw2.
   destruct (f_verdict f SPreWriteReply) eqn:E; try reflexivity. exfalso. eapply Hpw. reflexivity.
 Qed.
 
@@ -769,15 +812,35 @@ Lemma rule_post_body_panic_lemma f k c :
   normal_env f -> reaches_post_body f k -> f_verdict f SPostReadCallBody = VPanic c ->
   dispatch_now f = [Reply (f_seq f) (Some (st_internal c))].
 Proof.
-  intros [B Hwok Hwerr] R Hv. destruct (to_post_body f k B R) as (s2 & Hok2 & ->).
-  unfold handle_call. cbn [negb]. rewrite Hok2, Hv. cbn [hook].
+  intros [B Hwok Hwerr] R Hv. rewrite (to_post_body f k B R).
+  unfold handle_call. cbn [negb st_ok]. rewrite Hv. cbn [hook].
   rewrite write_once_normal by (assumption || reflexivity). reflexivity.
 Qed.
 
 (* a panic in a hook that runs on the read goroutine ends the session *)
-Lemma rule_header_panic_lemma effw f e c :
+Lemma rule_header_panic_lemma effw pf f e c :
   f_verdict f SPreReadHeader = VNil -> is_call f -> f_read f = RBody e ->
-  f_verdict f SPostReadCallHeader = VPanic c -> dispatch effw f = [Disconnect].
+  f_verdict f SPostReadCallHeader = VPanic c -> dispatch effw pf f = [Disconnect].
 Proof.
   intros Hpre Hc Hr Hv. unfold dispatch, binding, bind_with. rewrite Hpre, Hr, Hc, Hv. reflexivity.
+Qed.
+
+(* no goroutine: the CALL is refused with a 500, its handler is not run *)
+Lemma rule_no_goroutine_lemma f k :
+  is_call f -> f_verdict f SPreReadHeader = VNil -> f_goon f = true ->
+  f_spawn_failed f = true -> (forall c, f_verdict f SPreWriteReply <> VPanic c) ->
+  f_w_err1 f = WOk -> reaches_post_body f k ->
+  dispatch_now f = [Reply (f_seq f) (Some st_no_goroutine)].
+Proof.
+  intros Hc Hpre Hgo Hsp Hpw Hw [Hr Hp Hm Hl Hp2].
+  unfold dispatch_now, dispatch, binding, bind_with, after_read, handle.
+  rewrite Hpre, Hc, Hgo, Hsp.
+  assert (Hfin : forall kk, handle_call eff_write f (Some st_no_goroutine) (Some kk) true
+                            = [Reply (f_seq f) (Some st_no_goroutine)]).
+  { intros kk. unfold handle_call. cbn [negb st_ok st_no_goroutine st_internal st_code Z.eqb].
+    unfold reply_path, first_write, eff_write. cbn [st_ok st_internal st_code Z.eqb]. rewrite Hw.
+    destruct (f_verdict f SPreWriteReply) eqn:E; try reflexivity. exfalso. eapply Hpw. reflexivity. }
+  destruct Hr as [Hr|(e & Hr & ->)]; rewrite Hr, Hp, Hm, Hl, Hp2.
+  - destruct k; cbn [orb negb st_ok]; apply Hfin.
+  - cbn [orb negb st_ok]. apply Hfin.
 Qed.
